@@ -39,6 +39,10 @@ claimed = {
          "Theorems (every scenario tree of any nesting and bubbling depth, every failing position k, every node x): the running Begin/End balance of x never goes negative and ends at zero (each successful Begin is followed by exactly one End before the call returns); the call succeeds iff no callback failed; after the failing callback only End notifications follow; witnesses of the pinned tree's missing Ends. Tie: each generated scenario (upsert/insert/update/replace/delete × entry point with 0–3 ancestors) runs fault-free to learn K and its bracket tree, then K times with callback k failing; every faulted trace and result must equal the model's, and errors.As must find the injected error.",
          "Trusted: Lean kernel, harness, recording reference stores; the scenario tree is parsed from the real fault-free trace (so the model predicts faulted runs from the fault-free one). Not covered: Choose callbacks (no choices in these scenarios; target Choose errors are swallowed by design of clearOnDifferentChoiceCase), trigger-table callbacks, scenarios whose fault-free run fails (conflict/not-found).",
          "DESIGN.md §8 C12"),
+ "C15": ("Lean 4 theorems: string escaper round trip on Unicode scalars; the streaming writer (per-level first flag, driven by the editor's write callbacks) produces the rendering of the intended value; an RFC 8259 token reader returns exactly the rendered value (mutual structural induction over the nested JSON value type); byte-level correspondence with JSONWtr and encoding/json as independent reader",
+         "Theorems (every string, every nesting of containers/lists/leaf-lists, empty ones included): unescape(escape s) = s; writeDoc ms = render(obj(toJSON ms)); parseDoc(render v) = v (hence exactly one well-formed value that decodes to the intended one, also as a prefix of a longer text). Tie: all 8 configurations × start selections (root, container, list, entry) on generated schemas with every leaf type and nodes of an imported module: output decoded by encoding/json and compared with the expected RFC 7951 value; compact output compared byte-for-byte with the Lean model; pretty = compact modulo white space; output stream failing at every byte position must surface as an error.",
+         "Trusted: Lean kernel, harness, encoding/json (byte-level lexing is not in Lean: tokens → bytes is tied by the correspondence); number formatting (strconv) passes through as text. 64-bit integers are expected as JSON numbers as the library documents.",
+         "DESIGN.md §8 C15"),
  "C17": ("Lean 4 theorems over the Compare/lookup model; go/ast translator regenerates the Compare-shape table the theorems quantify over; differential correspondence against val.Compare/Equal/CompareVals and Find on slice-backed lists",
          "Theorems (all operand widths, all operands, all key lists): every Compare shape found in val/types.go has the sign of the mathematical difference; equality is an equivalence, order a strict total order; CompareVals is lexicographic; sort.Search+EqualVals and the linear scan return exactly the entry with the requested key. Tie: table regenerated from source on every run and closed by `decide`; 8-bit types compared exhaustively with the model, wider ones on boundary squares.",
          "Trusted: Lean kernel, extractor (regex classification of gofmt-normalised method bodies; unknown shape = opaque = obligation fails), harness; sort.Sort contract, IEEE-754 for Decimal64, enum ids within int32.",
